@@ -50,7 +50,9 @@ FlavourCases ==
 
 \* every (flavour, source): the harness runs the real command's configuration parsing for each
 ConfigCases == IF FlavourCross THEN [flavour : Flavours, cfg : Sources] ELSE {}
-ConfigInv == stage # "" => \A c \in ConfigCases :
+\* (a constant-level fact; tied to one state so that TLC reports it once)
+FirstCase == CHOOSE c \in Cases : TRUE
+ConfigInv == (stage = "outer" /\ cs = FirstCase) => \A c \in ConfigCases :
     C18_Config(c.flavour, c.cfg, IF ParseOK(c.cfg) THEN "ok" ELSE "error", ConfiguredReadOnly(c.flavour, c.cfg))
 ASSUME \A c \in ConfigCases :
     PrintT(<<"CFG", ToJson([flavour |-> c.flavour, cfg |-> c.cfg, parsed |-> (IF ParseOK(c.cfg) THEN "ok" ELSE "error"),
